@@ -39,7 +39,30 @@ pub struct ParserLog {
 
 pub fn build_feature(spec: &FeatureSpec) -> Result<gherkin::Feature, String> {
     let (f, _) = spec.build();
-    f.expand_examples().map_err(|e| format!("harness: expansion failed: {e}"))
+    let mut f = f.expand_examples().map_err(|e| format!("harness: expansion failed: {e}"))?;
+    if spec.positionless {
+        let zero = gherkin::LineCol { line: 0, col: 0 };
+        let steps = |steps: &mut Vec<gherkin::Step>| steps.iter_mut().for_each(|s| s.position = zero);
+        let scenario = |sc: &mut gherkin::Scenario| {
+            sc.position = zero;
+            sc.steps.iter_mut().for_each(|s| s.position = zero);
+        };
+        f.position = zero;
+        if let Some(b) = &mut f.background {
+            b.position = zero;
+            steps(&mut b.steps);
+        }
+        f.scenarios.iter_mut().for_each(scenario);
+        for r in &mut f.rules {
+            r.position = zero;
+            if let Some(b) = &mut r.background {
+                b.position = zero;
+                steps(&mut b.steps);
+            }
+            r.scenarios.iter_mut().for_each(scenario);
+        }
+    }
+    Ok(f)
 }
 
 pub fn make_error(kind: &ParserItemKind) -> parser::Error {
